@@ -381,6 +381,17 @@ def whowas_scenario():
         if i in (7, 9, 11):
             acts.append(["act", 1, {"verb": "WHOWAS", "nick": "rover"}])
     acts.append(["act", 1, {"verb": "WHOWAS", "nick": "rover", "count": 3}])
+    # ... and one user that goes back and forth between two nicknames seventy times: every release is recorded, the
+    # newest first, "repeated any number of times"
+    cid += 1
+    acts.append(["connect", {"nick": "ping", "user": "pp"}])
+    acts.append(["act", cid, {"verb": "JOIN", "chans": ["#rv"]}])
+    for i in range(70):
+        acts.append(["act", cid, {"verb": "NICK", "nick": "pong"}])
+        acts.append(["act", cid, {"verb": "NICK", "nick": "ping"}])
+        if i in (15, 31, 32, 33, 63, 64, 65, 69):
+            acts.append(["act", 1, {"verb": "WHOWAS", "nick": "ping"}])
+            acts.append(["act", 1, {"verb": "WHOWAS", "nick": "pong", "count": 2}])
     acts.append(["act", 1, {"verb": "LUSERS"}])
     return {"engine": "e1", "variant": {"preconf": False}, "actions": acts}
 
